@@ -828,7 +828,7 @@ fn long_checkpoint_history(n_after: usize) -> Vec<Viol> {
     for i in 0..4 {
         msgs.push(push(EventKind::ContinuityMessageAppended { actor_id: "actor0".into(), origin: "test".into(), content: format!("m{i}") }));
     }
-    let mut ck = |to: &(u64, String)| {
+    let ck = |to: &(u64, String)| {
         let id = uuid::Uuid::new_v4().to_string();
         let _ = id;
         EventKind::ContinuityCompactionCheckpointCreated {
@@ -862,6 +862,286 @@ fn long_checkpoint_history(n_after: usize) -> Vec<Viol> {
         }
     }
     out
+}
+
+// ------------------------------------------------------------------ concurrent schedule / auto calls
+/// One public call made by an actor thread, with resolved parameters (stride != 0, max_new in 1..=32).
+#[derive(Clone, Debug)]
+struct Call {
+    sched: bool,
+    stride: u64,
+    maxnew: u64,
+    block: bool,
+    exec: bool,
+}
+fn coq_call(c: &Call) -> String {
+    format!(
+        "{{| c_sched := {}; c_stride := {}; c_maxnew := {}; c_block := {}; c_exec := {} |}}",
+        coq_bool(c.sched),
+        coq_n(c.stride),
+        coq_n(c.maxnew),
+        coq_bool(c.block),
+        coq_bool(c.exec)
+    )
+}
+fn coq_ccase(prefix: &[Op], calls: &[Call], schedule: &[u64], expect: &[u64]) -> String {
+    format!(
+        "{{| cc_consts := real_consts; cc_prefix := {}; cc_calls := {}; cc_schedule := {}; cc_expect := {} |}}",
+        coq_list(prefix, coq_op),
+        coq_list(calls, coq_call),
+        coq_list_n(schedule),
+        coq_list_n(expect)
+    )
+}
+fn ccase_json(prefix: &[Op], calls: &[Call], schedule: &[u64]) -> Value {
+    json!({ "prefix": prefix.iter().map(|o| format!("{o:?}")).collect::<Vec<_>>(), "calls": calls.iter().map(|c| format!("{c:?}")).collect::<Vec<_>>(), "schedule": schedule })
+}
+
+enum Resp {
+    Sched(Result<ripd::CompactionAutoScheduleV1Response, String>),
+    Auto(Result<ripd::CompactionAutoV1Response, String>),
+}
+
+struct ConcRun {
+    obs: Vec<u64>,
+    texts: Vec<String>,
+    schedule: Vec<u64>,
+    viol: Vec<Viol>,
+    inconclusive: Option<String>,
+    jobs: usize,
+    ckpts: usize,
+    dup_ckpts: usize,
+}
+
+/// sequential prefix (no observations): the history the concurrent calls start from
+fn apply_prefix(w: &mut World, ops: &[Op]) {
+    for op in ops {
+        match op {
+            Op::Msg { actor, content } => {
+                let text = content_text(*content);
+                w.contents.insert(text.clone(), *content);
+                w.store.append_message(&w.tid, format!("actor{actor}"), "test".into(), text).unwrap();
+            }
+            Op::Other(k) => {
+                let mid = w.events.iter().rev().find(|e| matches!(e.kind, EventKind::ContinuityMessageAppended { .. })).map(|e| e.id.clone()).unwrap_or_else(|| unknown_uuid(1));
+                if k % 2 == 0 {
+                    w.store.append_run_spawned(&w.tid, &mid, "sess-1", "actor0".into(), "test".into()).unwrap();
+                } else {
+                    w.store.append_run_ended(&w.tid, &mid, "sess-1", "done".into(), "actor0".into(), "test".into()).unwrap();
+                }
+            }
+            Op::Manual { md, art, to_mid, to_seq, stride } => {
+                let req = CompactionCheckpointCumulativeV1Request {
+                    summary_markdown: md.map(|k| if k == 1 { LEGACY_MD.to_string() } else { format!("manual summary {k}\n\n## Cumulative Summary\n\nhand written {k}\n") }),
+                    summary_artifact_id: art.map(|a| w.uuid_of_art(a)),
+                    to_message_id: to_mid.map(|m| w.uuid_of_frame(m)),
+                    to_seq: *to_seq,
+                    stride_messages: *stride,
+                    actor_id: "actor0".into(),
+                    origin: "test".into(),
+                };
+                let _ = w.store.compaction_checkpoint_cumulative_v1(&w.tid, req);
+            }
+            Op::Auto { stride, maxnew, dry } => {
+                let req = CompactionAutoV1Request { stride_messages: *stride, max_new_checkpoints: maxnew.map(|m| m as u32), dry_run: *dry, actor_id: "actor0".into(), origin: "test".into() };
+                let _ = w.store.compaction_auto_v1(&w.tid, req);
+            }
+            Op::Sched { stride, maxnew, block, exec, dry } => {
+                let req = CompactionAutoScheduleV1Request { stride_messages: *stride, max_new_checkpoints: maxnew.map(|m| m as u32), block_on_inflight: *block, execute: *exec, dry_run: *dry, actor_id: "actor0".into(), origin: "test".into() };
+                let _ = w.store.compaction_auto_schedule_v1(&w.tid, req);
+            }
+            _ => {}
+        }
+        w.refresh();
+    }
+}
+
+/// Runs the calls on actor threads under the controlled scheduler.  A scheduling quantum of an actor is: the
+/// append it is parked in front of (cont.before_lock .. cont.advanced, run without interruption) followed by
+/// everything it does up to its next park in front of the seq mutex (or its end).  `fixed` replays a schedule.
+fn run_conc(prefix: &[Op], calls: &[Call], seed: u64, fixed: Option<&[u64]>) -> ConcRun {
+    use rv::sched::Sched;
+    let mut w = World::new("c09c");
+    apply_prefix(&mut w, prefix);
+    let mut sc = Sched::new();
+    if let Some(s) = Arc::get_mut(&mut sc) {
+        s.step_timeout = std::time::Duration::from_secs(180);
+    }
+    sc.install();
+    let resps: Arc<std::sync::Mutex<Vec<Option<Resp>>>> = Arc::new(std::sync::Mutex::new((0..calls.len()).map(|_| None).collect()));
+    let mut handles = vec![];
+    for (i, c) in calls.iter().enumerate() {
+        let store = w.store.clone();
+        let tid = w.tid.clone();
+        let c = c.clone();
+        let resps = resps.clone();
+        handles.push(sc.spawn(i, move || {
+            let r = if c.sched {
+                Resp::Sched(store.compaction_auto_schedule_v1(
+                    &tid,
+                    CompactionAutoScheduleV1Request { stride_messages: Some(c.stride), max_new_checkpoints: Some(c.maxnew as u32), block_on_inflight: Some(c.block), execute: Some(c.exec), dry_run: Some(false), actor_id: format!("actor{i}"), origin: "test".into() },
+                ))
+            } else {
+                Resp::Auto(store.compaction_auto_v1(&tid, CompactionAutoV1Request { stride_messages: Some(c.stride), max_new_checkpoints: Some(c.maxnew as u32), dry_run: Some(false), actor_id: format!("actor{i}"), origin: "test".into() }))
+            };
+            resps.lock().unwrap()[i] = Some(r);
+        }));
+    }
+    let mut rng = Rng::new(seed);
+    let mut schedule: Vec<u64> = vec![];
+    let mut off_script = false;
+    let mut k = 0usize;
+    let trace = sc.run(
+        |en| {
+            if let Some((a, _)) = en.iter().find(|(_, p)| *p != "start" && *p != "cont.before_lock") {
+                return Some(*a); // inside an append or a file-system step: finish the quantum
+            }
+            let choice = match fixed {
+                Some(f) => match f.get(k) {
+                    Some(a) if en.iter().any(|(x, _)| *x as u64 == *a) => *a as usize,
+                    _ => {
+                        off_script = true;
+                        en[0].0
+                    }
+                },
+                None => en[rng.below(en.len() as u64) as usize].0,
+            };
+            k += 1;
+            schedule.push(choice as u64);
+            Some(choice)
+        },
+        &|_, _| true,
+    );
+    Sched::uninstall();
+    for h in handles {
+        let _ = h.join();
+    }
+    w.refresh();
+    let mut viol = vec![];
+    let mut inconclusive = None;
+    if trace.deadlock {
+        viol.push(Viol { what: format!("concurrent compaction calls deadlocked after {:?}", trace.steps), class: "deadlock".into() });
+    }
+    if !trace.panicked.is_empty() {
+        viol.push(Viol { what: format!("actor(s) {:?} panicked", trace.panicked), class: "panic".into() });
+    }
+    if trace.in_flight_timeouts > 0 {
+        inconclusive = Some("an actor did not reach its next park within the step watchdog".to_string());
+    }
+    if off_script {
+        inconclusive = Some("replayed schedule could not be followed".to_string());
+    }
+    // responses
+    let mut obs: Vec<u64> = vec![];
+    let rs = resps.lock().unwrap();
+    let mut claimed_done: Vec<String> = vec![];
+    for (i, r) in rs.iter().enumerate() {
+        match r {
+            None => obs.push(0),
+            Some(Resp::Sched(Err(e))) | Some(Resp::Auto(Err(e))) => {
+                obs.extend([1, 99]);
+                viol.push(Viol { what: format!("concurrent call {i} failed: {e}"), class: "unexpected_error".into() });
+            }
+            Some(Resp::Sched(Ok(r))) => {
+                obs.extend([1, decision_no(&r.decision)]);
+                enc_opt(&mut obs, r.job_id.as_ref().map(|j| w.job_no(j)));
+                let cs: Vec<(String, String, u64, String)> = r.result.iter().map(|c| (c.checkpoint_id.clone(), c.summary_artifact_id.clone(), c.to_seq, c.to_message_id.clone())).collect();
+                enc_createds(&w, &mut obs, &cs);
+                enc_opt(&mut obs, r.error.as_ref().map(|e| job_err_no(e)));
+                if r.decision == "completed" || r.decision == "failed" {
+                    claimed_done.extend(r.job_id.clone());
+                }
+            }
+            Some(Resp::Auto(Ok(r))) => {
+                let st = match r.status.as_str() {
+                    "noop" => 10,
+                    "completed" => 12,
+                    "failed" => 13,
+                    _ => 98,
+                };
+                obs.extend([1, st]);
+                enc_opt(&mut obs, r.job_id.as_ref().map(|j| w.job_no(j)));
+                let cs: Vec<(String, String, u64, String)> = r.result.iter().map(|c| (c.checkpoint_id.clone(), c.summary_artifact_id.clone(), c.to_seq, c.to_message_id.clone())).collect();
+                enc_createds(&w, &mut obs, &cs);
+                enc_opt(&mut obs, r.error.as_ref().map(|e| job_err_no(e)));
+                if r.status == "completed" || r.status == "failed" {
+                    claimed_done.extend(r.job_id.clone());
+                }
+            }
+        }
+    }
+    drop(rs);
+    // independent oracle: valid stream, job bracket, coverage; every job whose call returned has its job_ended
+    oracle_history(&w, &[], &mut viol);
+    for j in &claimed_done {
+        let ended = w.events.iter().filter(|e| matches!(&e.kind, EventKind::ContinuityJobEnded { job_id, .. } if job_id == j)).count();
+        if ended != 1 {
+            viol.push(Viol { what: format!("call returned for job {j} but the stream holds {ended} job_ended frame(s) for it"), class: "job_bracket".into() });
+        }
+    }
+    // replay safety: after the race the queries still answer from truth, with and without caches
+    for stride in calls.iter().map(|c| c.stride).collect::<std::collections::BTreeSet<u64>>() {
+        let req = CompactionCutPointsV1Request { stride_messages: Some(stride), limit: Some(32) };
+        let r = w.store.compaction_cut_points_v1(&w.tid, req.clone());
+        match &r {
+            Err(e) => viol.push(Viol { what: format!("cut_points after concurrent calls failed: {e}"), class: "unexpected_error".into() }),
+            Ok(r) => {
+                let want = ref_cut_points(&w.events, stride, 32);
+                let got: Vec<RefCut> = r.cut_points.iter().map(|c| RefCut { ord: c.target_message_ordinal, seq: c.to_seq, id: c.to_message_id.clone(), done: c.already_checkpointed, ck: c.latest_checkpoint_id.clone() }).collect();
+                if want != got {
+                    viol.push(Viol { what: format!("after concurrent calls cut_points {got:?} differ from the stream {want:?}"), class: "checkpointed_flag_wrong".into() });
+                }
+            }
+        }
+        let (_sc, t) = w.truth_copy();
+        let r2 = t.compaction_cut_points_v1(&w.tid, req);
+        let a = r.as_ref().map(|x| serde_json::to_value(x).unwrap()).map_err(|e| e.clone());
+        let b = r2.as_ref().map(|x| serde_json::to_value(x).unwrap()).map_err(|e| e.clone());
+        if a != b {
+            viol.push(Viol { what: format!("after concurrent calls: cut_points with caches {a:?} != without caches {b:?}"), class: "fast_truth_differ".into() });
+        }
+    }
+    obs.push(w.events.len() as u64);
+    for e in &w.events {
+        obs.extend([e.seq, w.frame_no(&e.id)]);
+        enc_body(&w, &mut obs, e);
+    }
+    obs.push(w.arts.len() as u64);
+    for (i, a) in w.arts.iter().enumerate() {
+        obs.push(i as u64 + 1);
+        obs.extend(a.1.iter().copied());
+    }
+    let texts = w.arts.iter().map(|a| w.canon_text(&a.2)).collect();
+    let jobs = w.jobs.len();
+    let mut tos: Vec<u64> = w.events.iter().filter_map(|e| match &e.kind { EventKind::ContinuityCompactionCheckpointCreated { to_seq, .. } => Some(*to_seq), _ => None }).collect();
+    let ckpts = tos.len();
+    tos.sort();
+    tos.dedup();
+    ConcRun { obs, texts, schedule, viol, inconclusive, jobs, ckpts, dup_ckpts: ckpts - tos.len() }
+}
+
+fn gen_conc(r: &mut Rng) -> (Vec<Op>, Vec<Call>) {
+    let stride = *r.pick(&[1u64, 2, 2, 3]);
+    let mut prefix = vec![];
+    let n = r.range(2, 11);
+    for _ in 0..n {
+        match r.below(10) {
+            0 => prefix.push(Op::Other(r.below(2))),
+            _ => prefix.push(Op::Msg { actor: r.below(2), content: r.below(40) }),
+        }
+    }
+    match r.below(6) {
+        0 => prefix.push(Op::Sched { stride: Some(stride), maxnew: Some(1), block: Some(false), exec: Some(false), dry: None }), // a job left in flight
+        1 => prefix.push(Op::Auto { stride: Some(stride), maxnew: Some(1), dry: None }),
+        2 => prefix.push(Op::Manual { md: Some(0), art: None, to_mid: None, to_seq: None, stride: Some(stride) }),
+        _ => {}
+    }
+    let k = 2 + r.below(2) as usize;
+    let mut calls = vec![];
+    for _ in 0..k {
+        calls.push(Call { sched: r.below(3) != 0, stride: if r.below(5) == 0 { *r.pick(&[1u64, 2, 3]) } else { stride }, maxnew: *r.pick(&[1u64, 1, 2, 32]), block: r.below(4) != 0, exec: r.below(5) != 0 });
+    }
+    (prefix, calls)
 }
 
 // ------------------------------------------------------------------ generator
@@ -1035,6 +1315,69 @@ fn main() {
             }
         }
     }
+    // concurrent schedule / auto calls under the controlled scheduler
+    let n_conc = if a.thorough() { 600 } else { 50 };
+    let mut wc = CaseWriter::new(&a.out.join("conc"), "Model.Compaction", "check_ccase", "model_cobs", 25).with_base(1_000_000);
+    for i in 0..n_conc {
+        let (prefix, calls) = gen_conc(&mut r);
+        let seed = r.next();
+        let (p2, c2) = (prefix.clone(), calls.clone());
+        let got = std::panic::catch_unwind(move || {
+            let r1 = run_conc(&p2, &c2, seed, None);
+            let r2 = if i % 3 == 0 && r1.inconclusive.is_none() { Some(run_conc(&p2, &c2, seed, Some(&r1.schedule))) } else { None };
+            (r1, r2)
+        });
+        res.evaluations += 1;
+        res.bump("concurrent_cases");
+        match got {
+            Err(_) => {
+                rv::sched::Sched::uninstall();
+                res.impl_panics += 1;
+                res.oracle_violations.push(OracleViolation { case_id: -2, what: "concurrent compaction harness panicked".into(), class: "panic".into(), replay: ccase_json(&prefix, &calls, &[]) });
+            }
+            Ok((r1, r2)) => {
+                res.oracle_checks += 3 + calls.len() as u64;
+                res.bump_by("concurrent_jobs_spawned", r1.jobs as u64);
+                res.bump_by("concurrent_checkpoints", r1.ckpts as u64);
+                res.bump_by("concurrent_duplicate_checkpoints", r1.dup_ckpts as u64);
+                if r1.jobs >= 2 {
+                    res.bump("concurrent_cases_with_2+_jobs");
+                }
+                let mut viol = r1.viol;
+                if let Some(r2) = r2 {
+                    if r2.inconclusive.is_none() {
+                        if r1.obs != r2.obs {
+                            viol.push(Viol { what: "the same calls under the same schedule gave different canonical observations".into(), class: "nondeterministic".into() });
+                        } else if r1.texts != r2.texts {
+                            viol.push(Viol { what: "summary text differs between two runs of the same calls under the same schedule".into(), class: "summary_text_differs".into() });
+                        }
+                    } else {
+                        res.bump("concurrent_replay_inconclusive");
+                    }
+                }
+                if let Some(v) = viol.first() {
+                    res.oracle_violations.push(OracleViolation { case_id: -2, what: v.what.clone(), class: v.class.clone(), replay: ccase_json(&prefix, &calls, &r1.schedule) });
+                }
+                match &r1.inconclusive {
+                    Some(why) => {
+                        res.bump(&format!("concurrent_inconclusive: {why}"));
+                    }
+                    None => {
+                        if !a.oracle_only() {
+                            let id = wc.push(coq_ccase(&prefix, &calls, &r1.schedule, &r1.obs));
+                            if res.case_index.len() < 4000 {
+                                res.case_index.insert(id.to_string(), ccase_json(&prefix, &calls, &r1.schedule));
+                            }
+                        }
+                        if r1.jobs >= 1 {
+                            distinct.add(&format!("{prefix:?}{calls:?}{:?}", r1.schedule));
+                        }
+                    }
+                }
+            }
+        }
+    }
+    wc.flush();
     for n_after in [3usize, 9_999, 10_000, 10_050] {
         let got = std::panic::catch_unwind(move || long_checkpoint_history(n_after));
         res.evaluations += 1;
@@ -1054,7 +1397,7 @@ fn main() {
         res.samples.push(case_json(&all[0]));
     }
     res.distinct_nontrivial = distinct.count();
-    res.case_files = w.files.iter().map(|p| p.display().to_string()).collect();
+    res.case_files = w.files.iter().chain(wc.files.iter()).map(|p| p.display().to_string()).collect();
     res.write(&a.out);
     println!("c09: {} cases, {} distinct non-trivial, {} oracle violations, {} panics", res.evaluations, res.distinct_nontrivial, res.oracle_violations.len(), res.impl_panics);
     let _ = Path::new(".");
